@@ -91,6 +91,20 @@ def correspondence(ctx):
         if a.startswith("err") or b.startswith("err"):
             continue
         comps.append((bytes.fromhex(a) + bytes.fromhex(b), xa + xb)); fresh_ones.add(len(comps) - 1)
+    # directed: content size known (pledged), small window, blocks of irregular sizes (mid-block flushes) so that laps of the decoder's ring have
+    # uneven lengths, matches at distances just below the window size, Huffman literals; decoded below in small pieces by a context of its own
+    rl, rm = [], []
+    for _ in range(30 if ctx.quick() else 400):
+        wl = rng.choice([10, 10, 11, 12]); W = 1 << wl
+        t = rng.randint(1, W - 1); last = rng.randint(W // 2, W)
+        nfull = rng.choice([2, 2, 3, 5])
+        xr = datagen.ringlap(rng, wl, nfull * W + t + last)
+        rl.append("cstream 100=%d,101=%d,9000=1%s %s %s 1000000 f" % (rng.choice([3, 9, 9, 19]), wl, rng.choice(["", "", ",201=1"]), xr.hex(), ",".join([str(W)] * nfull + [str(t), str(last)]))); rm.append(xr)
+    rout = frames.parallel(lambda ch: frames.run_lines(exe, ch, timeout=1800)[1], frames.split_chunks(rl, 16))
+    for xr, o in zip(rm, rout):
+        if o.startswith("err"):
+            continue
+        comps.append((bytes.fromhex(o.split()[0]), xr)); fresh_ones.add(len(comps) - 1)
     info = frames.parallel(lambda ch: frames.model_lines(ch), frames.split_chunks(["frameinfo %d %s" % (len(c), frames.hx(f)) for f, c in comps], 16))
     tl, tmeta = [], []
     for ci, ((f, c), fi) in enumerate(zip(comps, info)):
